@@ -444,6 +444,12 @@ def run(pid, tier, seed, rule, assumptions, workers=16, confs=None, extra_sig=No
 def replay_file(path, pid):
     with open(path) as f:
         obj = json.load(f)
+    if obj.get("engine") == "mech-trace":
+        from . import mech_trace  # pylint: disable=import-outside-toplevel
+        return mech_trace.replay_file(path, pid)
+    if obj.get("engine") == "trace":
+        from . import rg_props  # pylint: disable=import-outside-toplevel
+        return rg_props.replay_file(path, pid)
     opts = dict(obj.get("opts") or {})
     if opts.get("targets"):
         opts["targets"] = set(opts["targets"])
